@@ -182,6 +182,7 @@ def nt_rem(feat, script, canon):
 
 register(
     "C16",
+    claimed=False, na_reason="check being completed (wrapper proofs and the INT_MIN repair in progress)",
     lean_modules=["EventppVerif.Properties.C16"],
     fragments=["RemoverFrag"],
     theorems=[],
@@ -192,6 +193,7 @@ register(
 
 register(
     "C15",
+    claimed=False, na_reason="check being completed (ScopedRemover proofs in progress)",
     lean_modules=["EventppVerif.Properties.C15"],
     theorems=[],
     suites=[cl_suite("rem", 400, 10000, rule="random ScopedRemover histories over 2 callback lists and 3 remover names: add through remover (append/prepend/insert), remove through "
